@@ -210,3 +210,23 @@ def replay(job, failed, inputs, outdir):
 C20_FUNCS = []
 def c20_jobs(tier):
     return []
+
+
+C20_FUNCS = ['generated C helpers emitted by stdlib_runtime.c into every program: nl_fmt_sb_ensure, nl_fmt_sb_append_cstr, nl_fmt_sb_append_char (text taken from the C the real nanoc generated)']
+def c20_jobs(tier):
+    """Kernels on the runtime text nanoc generates (string builder), from the genC of the simplest family member."""
+    val, tab = e2.isa_tables()
+    tools = e2.build_tools()
+    wd = os.path.join(scratch(), 'e2_c20')
+    prog = [p for p in family('quick') if p['name'] == 'op_add'][0]
+    r = e2.compile_program(prog, tools, wd, tab)
+    jobs = []
+    if 'genc' not in r:
+        return jobs
+    for opk, nm in ((0, 'append_cstr'), (1, 'append_char')):
+        for cap in ((8,) if tier == 'quick' else (1, 8, 16)):
+            jobs.append(Job(name='c20_genc_sb_%s_cap%d' % (nm, cap), harness='genc_sb.c', sources=[], defines={'GENC_FILE': '"%s"' % r['genc'], 'OPK': opk, 'CAP': cap, 'SMAX': 10},
+                            includes=[os.path.join(tools, 'src')], unwind=max(cap, 11) + 2, unwindset=['nl_fmt_sb_ensure.0:8', 'strlen.0:13'], flags=['--slice-formula'],
+                            timeout=600, group='generated_runtime_text', must_witness=['append done'], replay='none',
+                            desc={'helper': nm, 'capacity': cap, 'symbolic': 'builder length 0..cap-1, old contents, appended text (length 0..10) / character'}))
+    return jobs
